@@ -345,6 +345,11 @@ func runC11(c *core.Ctx, i int) {
 		c11setup(c)
 	}
 	r := c.Rand(i, 0)
+	if i%8 == 5 {
+		c.Journal(c.CurCase(), "registered pointer-carrying type")
+		c11registered(c, i, r)
+		return
+	}
 	f := c11genFile(c, i, r)
 	if f == nil || len(f.want) == 0 {
 		return
@@ -446,7 +451,7 @@ func init() {
 		ID:        "C11",
 		Level:     "exploration",
 		Technique: "runtime monitoring: decode and encode workloads under the runtime's own GC debugging (GODEBUG=clobberfree=1, gccheckmark=1, GOGC=1), forced collections + heap churn at hook points inside the library, a background collector goroutine, and deep re-examination of every retained value afterwards; second Go runtime in the thorough tier",
-		Rule: "files from the library's encoder (37 explicit stress shapes: maps/slices behind pointers, maps of maps, maps of slices, pointer chains, wrappers in every position; plus random composite-heavy types) and from the reference writer into target variations; every second record of a library-encoded file has its 64-bit integer leaves overwritten with address-like values (addresses inside spans the runtime has freed), so integer data parked in pointer-typed memory is a runtime bad-pointer stop; a collection is forced on every k-th hit of each hook point (k = 1..7 by case), then 5 rounds of GC+churn before every retained record is compared; " +
+		Rule: "files from the library's encoder (37 explicit stress shapes: maps/slices behind pointers, maps of maps, maps of slices, pointer chains, wrappers in every position; plus random composite-heavy types) and from the reference writer into target variations; every second record of a library-encoded file has its 64-bit integer leaves overwritten with address-like values (addresses inside spans the runtime has freed), so integer data parked in pointer-typed memory is a runtime bad-pointer stop; one case in eight decodes, at codec level, holders of a type registered for a scalar schema (long, int, double, fixed, string, bytes) whose values reference three heap objects each, in every position (field, slice item over several blocks, map value, pointee, nested slice, slice of pointers, slice in a map); a collection is forced on every k-th hit of each hook point (k = 1..7 by case), then 5 rounds of GC+churn before every retained record is compared; " +
 			"distinct_nontrivial = distinct (origin, type shape) combinations decoded under forced collections and re-verified",
 		Explanation: "clobberfree makes the collector overwrite every object it frees, so 'reachable only through a non-pointer word' becomes a value mismatch at the next comparison instead of depending on reuse; hook points put a cycle into each window (after New before use, before mapassign, after slice regrowth, around the callback, inside the map-iteration loop). A runtime fatal error (bad pointer, found pointer to free object) kills the child and is attributed via the journal.",
 		Assumptions: []string{"open finding c01.nested-null is kept out of the values (it is about representability, not the collector)", "hook points are optional aids: if a call site is missing from the tree the outside-in stressors (GOGC=1, background GC, post-decode rounds) still apply"},
@@ -473,6 +478,9 @@ func init() {
 			}
 			if a.C("numgc") < 1000 {
 				u = append(u, fmt.Sprintf("numgc=%d < 1000", a.C("numgc")))
+			}
+			if a.C("registered-boxes-verified") < 10000 {
+				u = append(u, fmt.Sprintf("registered-boxes-verified=%d < 10000", a.C("registered-boxes-verified")))
 			}
 			if a.C("records-verified") < 10000 {
 				u = append(u, fmt.Sprintf("records-verified=%d < 10000", a.C("records-verified")))
